@@ -826,74 +826,74 @@ impl ser::Serializer for TimeSerializer {
     }
 
     fn serialize_bool(self, _v: bool) -> Result<Value> {
-        unreachable!()
+        unexpected_time_payload()
     }
 
     fn serialize_i8(self, _v: i8) -> Result<Value> {
-        unreachable!()
+        unexpected_time_payload()
     }
 
     fn serialize_i16(self, _v: i16) -> Result<Value> {
-        unreachable!()
+        unexpected_time_payload()
     }
 
     fn serialize_i32(self, _v: i32) -> Result<Value> {
-        unreachable!()
+        unexpected_time_payload()
     }
 
     fn serialize_i64(self, _v: i64) -> Result<Value> {
-        unreachable!()
+        unexpected_time_payload()
     }
 
     fn serialize_u8(self, _v: u8) -> Result<Value> {
-        unreachable!()
+        unexpected_time_payload()
     }
 
     fn serialize_u16(self, _v: u16) -> Result<Value> {
-        unreachable!()
+        unexpected_time_payload()
     }
 
     fn serialize_u32(self, _v: u32) -> Result<Value> {
-        unreachable!()
+        unexpected_time_payload()
     }
 
     fn serialize_u64(self, _v: u64) -> Result<Value> {
-        unreachable!()
+        unexpected_time_payload()
     }
 
     fn serialize_f32(self, _v: f32) -> Result<Value> {
-        unreachable!()
+        unexpected_time_payload()
     }
 
     fn serialize_f64(self, _v: f64) -> Result<Value> {
-        unreachable!()
+        unexpected_time_payload()
     }
 
     fn serialize_char(self, _v: char) -> Result<Value> {
-        unreachable!()
+        unexpected_time_payload()
     }
 
     fn serialize_bytes(self, _v: &[u8]) -> Result<Value> {
-        unreachable!()
+        unexpected_time_payload()
     }
 
     fn serialize_none(self) -> Result<Value> {
-        unreachable!()
+        unexpected_time_payload()
     }
 
     fn serialize_some<T>(self, _value: &T) -> Result<Value>
     where
         T: ?Sized + Serialize,
     {
-        unreachable!()
+        unexpected_time_payload()
     }
 
     fn serialize_unit(self) -> Result<Value> {
-        unreachable!()
+        unexpected_time_payload()
     }
 
     fn serialize_unit_struct(self, _name: &'static str) -> Result<Value> {
-        unreachable!()
+        unexpected_time_payload()
     }
 
     fn serialize_unit_variant(
@@ -902,14 +902,14 @@ impl ser::Serializer for TimeSerializer {
         _variant_index: u32,
         _variant: &'static str,
     ) -> Result<Value> {
-        unreachable!()
+        unexpected_time_payload()
     }
 
     fn serialize_newtype_struct<T>(self, _name: &'static str, _value: &T) -> Result<Value>
     where
         T: ?Sized + Serialize,
     {
-        unreachable!()
+        unexpected_time_payload()
     }
 
     fn serialize_newtype_variant<T>(
@@ -922,15 +922,15 @@ impl ser::Serializer for TimeSerializer {
     where
         T: ?Sized + Serialize,
     {
-        unreachable!()
+        unexpected_time_payload()
     }
 
     fn serialize_seq(self, _len: Option<usize>) -> Result<Self::SerializeSeq> {
-        unreachable!()
+        unexpected_time_payload()
     }
 
     fn serialize_tuple(self, _len: usize) -> Result<Self::SerializeTuple> {
-        unreachable!()
+        unexpected_time_payload()
     }
 
     fn serialize_tuple_struct(
@@ -938,7 +938,7 @@ impl ser::Serializer for TimeSerializer {
         _name: &'static str,
         _len: usize,
     ) -> Result<Self::SerializeTupleStruct> {
-        unreachable!()
+        unexpected_time_payload()
     }
 
     fn serialize_tuple_variant(
@@ -948,11 +948,11 @@ impl ser::Serializer for TimeSerializer {
         _variant: &'static str,
         _len: usize,
     ) -> Result<Self::SerializeTupleVariant> {
-        unreachable!()
+        unexpected_time_payload()
     }
 
     fn serialize_map(self, _len: Option<usize>) -> Result<Self::SerializeMap> {
-        unreachable!()
+        unexpected_time_payload()
     }
 
     fn serialize_struct_variant(
@@ -962,8 +962,17 @@ impl ser::Serializer for TimeSerializer {
         _variant: &'static str,
         _len: usize,
     ) -> Result<Self::SerializeStructVariant> {
-        unreachable!()
+        unexpected_time_payload()
     }
+}
+
+/// The marker newtype structs carry a `Duration` struct or a timestamp string;
+/// any other payload under those names is an error, not a reason to panic.
+#[cfg(feature = "chrono")]
+fn unexpected_time_payload<T>() -> Result<T> {
+    Err(SerializationError::SerdeError(
+        "unexpected payload for a Duration/Timestamp marker newtype struct".to_owned(),
+    ))
 }
 
 #[cfg(test)]
